@@ -159,7 +159,26 @@ class C08Mixin(object):
         same = all(x is y for x, y in zip(out["l"], atoms)) and len(out["l"]) == len(atoms)
         same = same and all(k is a for k, a in zip(out["d"], box["d"])) and len(out["d"]) == len(box["d"])
         same = same and all(x is y for x, y in zip(out["t"], box["t"]))
-        return {"same": same, "n": len(atoms), "nd": len(out["d"])}
+        # atoms are used as dictionary keys everywhere: distinct atoms (an ion and its atom, an
+        # isotope and its element, the same atom of two tables) must stay distinct keys
+        rel = list(atoms)
+        for a in atoms:
+            p = getattr(a, "element", None)
+            if p is not None:
+                rel.append(p)
+            try:
+                k = C.atom_key(a)
+                other = "public" if tbl != "public" else next((n for n in self.tables if n != "public"), None)
+                if other is not None:
+                    rel.append(self.atom(other, k[1:]))
+            except Exception:  # noqa: BLE001
+                pass
+        ids = {id(x) for x in rel}
+        keys = {}
+        for x in rel:
+            keys[x] = 1
+        return {"same": same, "n": len(atoms), "nd": len(out["d"]), "distinct": len(ids), "keys": len(keys),
+                "set": len(set(rel))}
 
     def ev_change_to(self, src, ref, dst):
         a = self.atom(src, ref)
